@@ -81,9 +81,15 @@ class Ctx(object):
         self.names += 1
         return 'name-%d' % self.names
 
-    def pick_obj(self, otypes=None, p_bogus=0.05):
+    def pick_obj(self, otypes=None, p_bogus=0.05, state=None, mask=0):
         r = self.rng
         c = [o for o in self.objs if otypes is None or o['otype'] in otypes]
+        if (state or mask) and r.random() < 0.8:
+            # prefer objects the generator believes are usable
+            pref = [o for o in c if (state is None or o['state'] == state)
+                    and (o['mask'] & mask) == mask]
+            if pref:
+                c = pref
         if not c or r.random() < p_bogus:
             if self.objs and r.random() < 0.5:
                 return r.choice(self.objs)
@@ -250,8 +256,24 @@ def gen_derive(ctx, ver, actor):
 def gen_use(ctx, ver, actor):
     r = ctx.rng
     kind = r.choice(['Encrypt', 'Decrypt', 'Sign', 'SignatureVerify', 'MAC'])
+    if kind in ('Encrypt', 'Decrypt') and ver >= (1, 4) and \
+            r.random() < 0.25:
+        # authenticated encryption (GCM): tag / additional data
+        o = ctx.pick_obj(['SymmetricKey'], 0.1, state='Active',
+                         mask=4 if kind == 'Encrypt' else 8)
+        op = {'op': kind, 'uid': ctx.ref(o),
+              'cp': {'alg': 3, 'mode': 9,
+                     'tag_len': r.choice([16, 16, 12, None])},
+              'data': ctx.rbytes(r.choice([0, 16, 33])),
+              'iv': ctx.rbytes(r.choice([12, 12, 16, 1]))}
+        if r.random() < 0.5:
+            op['aad'] = ctx.rbytes(r.choice([1, 20]))
+        if kind == 'Decrypt' and r.random() < 0.9:
+            op['tag'] = ctx.rbytes(r.choice([16, 12, 4]))
+        return op
     if kind in ('Encrypt', 'Decrypt'):
-        o = ctx.pick_obj(['SymmetricKey'], 0.15)
+        o = ctx.pick_obj(['SymmetricKey'], 0.15, state='Active',
+                         mask=4 if kind == 'Encrypt' else 8)
         cp = {'alg': 3, 'mode': r.choice([1, 1, 2, 6]),
               'padding': r.choice([3, 3, 6, None])}
         if r.random() < 0.1:
@@ -262,16 +284,17 @@ def gen_use(ctx, ver, actor):
             op['iv'] = ctx.rbytes(16)
         return op
     if kind == 'Sign':
-        o = ctx.pick_obj(['PrivateKey'], 0.15)
+        o = ctx.pick_obj(['PrivateKey'], 0.15, state='Active', mask=1)
         return {'op': 'Sign', 'uid': ctx.ref(o),
                 'cp': {'alg': 4, 'hash': 6, 'padding': 8},
                 'data': ctx.rbytes(12)}
     if kind == 'SignatureVerify':
-        o = ctx.pick_obj(['PublicKey'], 0.15)
+        o = ctx.pick_obj(['PublicKey'], 0.15, state='Active', mask=2)
         return {'op': 'SignatureVerify', 'uid': ctx.ref(o),
                 'cp': {'alg': 4, 'hash': 6, 'padding': 8},
                 'data': ctx.rbytes(12), 'sig': ctx.rbytes(128)}
-    o = ctx.pick_obj(['SymmetricKey', 'SecretData'], 0.15)
+    o = ctx.pick_obj(['SymmetricKey', 'SecretData'], 0.15, state='Active',
+                     mask=0x80)
     return {'op': 'MAC', 'uid': ctx.ref(o),
             'cp': {'alg': r.choice([9, 9, 0xB, 3])},
             'data': ctx.rbytes(10)}
@@ -446,8 +469,13 @@ def gen_request(ctx, actor=None, ver=None, max_items=3, weights=None,
     if r.random() < p_batch:
         n = r.randint(2, max_items)
     items = [gen_op(ctx, tuple(ver), actor, weights) for _ in range(n)]
+    if items[-1]['op'] in ('Create', 'Register') and r.random() < 0.35 \
+            and ctx.objs and items[-1].get('label'):
+        # activate the new object in the same batch
+        items.append({'op': 'Activate'})
+        ctx.objs[-1]['state'] = 'Active'
     req = {'actor': actor, 'ver': list(ver), 'items': items}
-    if n > 1:
+    if len(items) > 1:
         req['cont'] = r.choice([None, 1, 2, 2])
         if r.random() < 0.2:
             req['order'] = r.random() < 0.5
